@@ -220,6 +220,17 @@ class HG:
                     for fn, ft in v.ty.fields:
                         if ft == ty: out.append(Member(v, fn))
             return out
+        # internal helpers that modify scalar globals: called between a write and a read of the same global
+        helpers = []
+        scal = [v for v in gv if isinstance(v.ty, Sc)]
+        for _ in range(r.randint(0, 2)):
+            if not scal: break
+            tgt = r.choice(scal)
+            pn = self.fresh("q")
+            pv = Var(pn, tgt.ty, 'arg', 0)
+            body = Block([ExprS(Assign(tgt, Bin('+', tgt, pv))), Return(tgt)])
+            helpers.append((Func(self.fresh("bump"), [(pn, tgt.ty)], tgt.ty, body, False), tgt))
+            funcs.append(helpers[-1][0]); self.hit('helper-writes-global')
         for k in range(r.randint(2, 4)):
             params = [(self.fresh("p"), r.choice([INT, FLOAT])) for _ in range(r.randint(0, 2))]
             vars_ = [Var(n, t, 'arg', i) for i, (n, t) in enumerate(params)]
@@ -244,6 +255,13 @@ class HG:
                 srcs = [v for v in vars_ if v.ty == ty] + places(ty) + ([loc] if ty == INT else [])
                 rhs = Bin(r.choice(['+', '-', '*']), r.choice(srcs), r.choice(srcs + [_lit(r, ty)]))
                 ss.append(ExprS(Assign(tgt, rhs))); self.hit('global-write')
+            if helpers and r.random() < .7:
+                # g = e; bump(c); g = g + 1;   — the callee's write to g must be seen by the read after the call
+                h, tgt = r.choice(helpers)
+                ss.append(ExprS(Assign(tgt, _lit(r, tgt.ty))))
+                ss.append(ExprS(Call(h, [_lit(r, tgt.ty)])))
+                ss.append(ExprS(Assign(tgt, Bin('+', tgt, _lit(r, tgt.ty)))))
+                self.hit('store-call-load')
             rs = [v for v in vars_ if v.ty == ret] + places(ret) + ([loc] if ret == INT else [])
             res = r.choice(rs) if rs else _lit(r, ret)
             if ret == INT: res = Bin('+', res, loc)
